@@ -14,8 +14,12 @@
           src/avl.c and src/rbt.c are REGENERATED from the current sources (clang JSON AST; both node layouts: packed parent
           word and plain parent field, the accessor recognised by its own definition) into Gallina over the model's reader /
           state vocabulary, and harness/C03/TieNav.v proves each generated function equal to the model of IterDefs.v for
-          every reader, fuel and argument (22 tie theorems per layout, re-checked on every run).  The foreach / fortear
-          MACROS of the headers (the loops around these functions) are not translated: they are tied by the C harness only.
+          every reader, fuel and argument (22 tie theorems per layout, re-checked on every run).  The 14 + 14 ITERATION MACROS
+          of avl.h / rbt.h (foreach, foreach_reverse, pre_/post_ forms, fortear; lower-case and upper-case) are expanded by
+          clang in harness/C03/macro_unit.c (one function per macro around a visit of the element; fortear: visit + free),
+          translated the same way and proved in harness/C03/TieNavMacros.v EQUAL to the model's foreach ... post_foreach_reverse
+          (the objects of the enumeration theorems) resp. to the uninterrupted tear-down loop tear_all of coq/C03/NavLemmas.v,
+          which agrees with the model's fortear on every complete run (28 tie theorems per layout).
   oracle: the property itself evaluated on what the C printed (recursive traversals of the dump,
           ascending keys, next/prev inverse, exactly-once, children before parents, remaining
           structure is the restriction of the tree, final root null); ASan/UBSan aborts, crashes
@@ -880,8 +884,8 @@ def run(ctx):
     ctx.cov["trusted_base"] += [
         "extraction (ExtrOcamlBasic only) and harness/C03/mdrv.ml (int<->positive/nat, parsing, printing)",
         "harness/C03/drv.c + body.h (builds the trees, dumps left/right/parent, runs the macros); ASan/UBSan as observers of reads after free",
-        "C semantics / compiler; the iterator macros of the headers are tied to the model by differential comparison, not proved "
-        "(the navigation functions and tear they call are additionally tied by the translator c2nav)"]
+        "C semantics / compiler; the pointer code is tied to the model by differential comparison and, for the navigation functions, "
+        "tear and the iteration macros, by the translator c2nav (trusted as a reading of the C)"]
     if missing:
         ctx.notes.append("model branches not reached in this run: " + ", ".join(missing))
     ctx.log("compared %d trees (%d lines, %d distinct shapes), %d disagreements, branches not reached: %s"
@@ -919,17 +923,21 @@ META = {
             "real AVL and RB trees plus hand-linked shapes, ASan with free() in tear. Tie 2 (translator tools/c2nav.py): "
             "a_avl_/a_rbt_ head, tail, next, prev, pre_next, pre_prev, post_head, post_tail, post_next, post_prev and tear (with "
             "new_child) are regenerated from the current avl.c / rbt.c / avl.h / rbt.h on every run, in both node layouts, and "
-            "each is proved equal to the model function the theorems are about, for every heap, fuel and argument.",
+            "each is proved equal to the model function the theorems are about, for every heap, fuel and argument; the 28 iteration macros "
+            "of avl.h / rbt.h (a_avl_foreach ... A_RBT_FORTEAR), expanded by clang around a visit (fortear: visit and free), are "
+            "regenerated too and proved equal to the model's foreach / ... / post_foreach_reverse enumerations and to the complete "
+            "fortear run, for every heap, fuel and root.",
     "note": "Trusted: Coq kernel; extraction (ExtrOcamlBasic only) + drivers; the translator tools/c2nav.py as a reading of the "
             "C (pointers = option id, null or dangling dereference = Stuck, `parent_ & ~tag bits` / `parent` = the model's parent "
             "field, root->node and the caller's *next as separate cells that do not alias the nodes, one unit of fuel per loop "
             "iteration) - not as a statement about the model: its output is proved equal to the hand-written model on every run "
-            "(44 tie theorems = 22 functions x 2 layouts, closed under the global context), so a change of the navigation code "
-            "breaks a named tie theorem, and independently the model is run on the shape dumped from the C (differential "
+            "(100 tie theorems = (22 functions + 28 iteration macros) x 2 layouts, closed under the global context), so a change of "
+            "the navigation code or of a macro breaks a named tie theorem, and independently the model is run on the shape dumped from the C (differential "
             "testing on all shapes <= 7 (thorough 10) nodes, all insertion orders of <= 6 (7) keys, large directed and random "
-            "shapes). Correspondence-only (not translated): the foreach / foreach_reverse / pre / post / fortear MACROS of avl.h and "
-            "rbt.h (the model's iterate / fortear loops around the step functions), the lower-case macro forms, and free() in "
-            "the caller's loop body. 'The C reads nothing freed' is observed by ASan and, for the translated functions, follows "
+            "shapes). The macros are translated in a unit file whose loop body is `visit(cur)` (fortear: `visit(cur); free(cur)`, free "
+            "= removal from the model heap, checked); the fortear tie is to the uninterrupted loop (coq/C03/NavLemmas.v: equal to the "
+            "model's fortear fuel k whenever that run ends because tear returned null, in particular on C03_tear_complete), the "
+            "INTERRUPTED tear-down (a `break` in the caller's body) stays correspondence-only, as does a_avl_entry/a_rbt_entry. 'The C reads nothing freed' is observed by ASan and, for the translated functions, follows "
             "from the tie (a read of a removed id is Stuck in the generated code too); removing a node from the model heap "
             "stands for the caller's free(). No axioms.",
     "technique": "Rocq proof (zipper contexts over a heap representation predicate, structural induction) + translator tie (C navigation functions regenerated into Gallina and proved equal to the model on every run) + extracted-model vs C iterator-sequence correspondence",
